@@ -9,15 +9,26 @@ from bitstring import utils
 CACHE_SIZE = 256
 
 
+def _scale_up(val, scale: Union[int, float]):
+    try:
+        return val * scale
+    except OverflowError:
+        raise ValueError(f"The value {val} can't be multiplied by the scale factor {scale}.")
+
+
 def scaled_get_fn(get_fn, s: Union[int, float]):
     def wrapper(*args, scale=s, **kwargs):
-        return get_fn(*args, **kwargs) * scale
+        return _scale_up(get_fn(*args, **kwargs), scale)
     return wrapper
 
 
 def scaled_set_fn(set_fn, s: Union[int, float]):
     def wrapper(bs, value, *args, scale=s, **kwargs):
-        return set_fn(bs, value / scale, *args, **kwargs)
+        try:
+            value = value / scale
+        except OverflowError:
+            raise ValueError(f"The value {value} can't be divided by the scale factor {scale}.")
+        return set_fn(bs, value, *args, **kwargs)
     return wrapper
 
 
@@ -26,8 +37,8 @@ def scaled_read_fn(read_fn, s: Union[int, float]):
         val = read_fn(*args, **kwargs)
         if isinstance(val, tuple):
             val, pos = val
-            return val * scale, pos
-        return val * scale
+            return _scale_up(val, scale), pos
+        return _scale_up(val, scale)
     return wrapper
 
 
